@@ -100,7 +100,7 @@ class IsoDepInitiator(object):
                         data = pfb + command[offset:offset+self.miu]
                         continue
                     break
-                except nfc.clf.TransmissionError:
+                except (nfc.clf.TransmissionError, nfc.clf.BrokenLinkError):
                     if i <= self.n_retry_nak:
                         log.warning("ISO-DEP transmission error (#%d)" % i)
                         data = bytearray([0xB2 | self.pni])
@@ -127,7 +127,7 @@ class IsoDepInitiator(object):
                     data = self.clf.exchange(data, (data[1] & 0x3F) * self.fwt)
                 except nfc.clf.TimeoutError:
                     raise Type4TagCommandError(nfc.tag.TIMEOUT_ERROR)
-                except nfc.clf.TransmissionError:
+                except (nfc.clf.TransmissionError, nfc.clf.BrokenLinkError):
                     raise Type4TagCommandError(nfc.tag.RECEIVE_ERROR)
                 except nfc.clf.ProtocolError:
                     raise Type4TagCommandError(nfc.tag.PROTOCOL_ERROR)
@@ -161,7 +161,7 @@ class IsoDepInitiator(object):
                     if len(data) == 0:
                         raise nfc.clf.TransmissionError
                     break
-                except nfc.clf.TransmissionError:
+                except (nfc.clf.TransmissionError, nfc.clf.BrokenLinkError):
                     if i <= self.n_retry_ack:
                         log.warning("ISO-DEP transmission error  (#%d)" % i)
                         data = bytearray([0xA2 | self.pni])
@@ -188,7 +188,7 @@ class IsoDepInitiator(object):
                     data = self.clf.exchange(data, (data[1] & 0x3F) * self.fwt)
                 except nfc.clf.TimeoutError:
                     raise Type4TagCommandError(nfc.tag.TIMEOUT_ERROR)
-                except nfc.clf.TransmissionError:
+                except (nfc.clf.TransmissionError, nfc.clf.BrokenLinkError):
                     raise Type4TagCommandError(nfc.tag.RECEIVE_ERROR)
                 except nfc.clf.ProtocolError:
                     raise Type4TagCommandError(nfc.tag.PROTOCOL_ERROR)
